@@ -279,6 +279,14 @@ func (m *Master) serve(c net.Conn, p *ServePlan, rec *ConnRecord) {
 				continue
 			}
 			pc.write(okPacket())
+			if p.ConnFault == "set_then_reset" {
+				// the connection dies right after the SET was answered: the client's next write (the dump request) fails
+				if tc, ok := c.(*net.TCPConn); ok {
+					tc.SetLinger(0)
+				}
+				c.Close()
+				return
+			}
 		case 0x12:
 			if len(cmd) < 11 {
 				rec.addCmd(Cmd{Kind: "other", Raw: cmd[0]})
